@@ -75,10 +75,25 @@ Fixpoint top_op (t : term) : option aop :=
   match t with TArith op _ _ _ => Some op | TNot t' _ => top_op t' | _ => None end.
 Definition top_bop (t : term) : option bop := match t with TCplx b _ _ _ => Some b | _ => None end.
 
+(* the kind of a term as an OPERAND, as far as the renderers of operators and predicates distinguish it
+   (gen/TermsTable.v: operand_parens, neg_parens_arith, neg_parens_neg) *)
+Definition okind_of (t : term) : okind :=
+  match t with
+  | TBasic _ _ _ _ => OKBasic | TCplx _ _ _ _ => OKCplx | TIn _ _ _ _ => OKIn | TBetween _ _ _ _ => OKBetween
+  | TIsNull _ _ => OKNull | TNotNull _ _ => OKNotNull | TNot _ _ => OKNot | _ => OKOther
+  end.
+Definition starts_minus (s : string) : bool :=
+  match s with String a _ => Ascii.eqb a "-"%char | EmptyString => false end.
+
 Definition bind {A B} (x : res A) (f : A -> res B) : res B := match x with Ok a => f a | Err e => Err e end.
 Notation "x <- e ;; f" := (bind e (fun x => f)) (at level 61, e at next level, right associativity).
 
 Definition paren (b : bool) (s : string) : string := if b then "(" ++ s ++ ")" else s.
+(* _operand_sql: the text of an operand in slot [sl] *)
+Definition opnd (sl : oslot) (t : term) (s : string) : string := paren (operand_parens sl (okind_of t)) s.
+(* ... and the context it is rendered in: a parenthesised operand no longer sees an enclosing NOT's subcriterion flag *)
+Definition opc (sl : oslot) (t : term) (c : ctx) : ctx :=
+  if operand_parens sl (okind_of t) && negb operand_keeps_subc then set_subc c false else c.
 (* format_alias_sql with the context's alias settings; [qc] is the quote_char that reaches it *)
 Definition alias_sql (c : ctx) (qc : option string) (sql : string) (alias : option string) : string :=
   fmt_alias sql alias qc (aq c) (askw c).
@@ -105,16 +120,24 @@ Fixpoint render (c : ctx) (t : term) {struct t} : res string :=
   | TValRaw txt alias => Ok (alias_sql c (q c) txt alias)
   | TLit raw alias => Ok (alias_sql c (q c) raw alias)
   | TParam txt => Ok txt
-  | TNeg t' => s <- render c t' ;; Ok ("-" ++ s)
+  | TNeg t' =>
+      s0 <- render (opc SNeg t' c) t' ;;
+      let s := opnd SNeg t' s0 in
+      Ok ("-" ++ paren (match t' with TArith _ _ _ _ => neg_parens_arith | TNeg _ => neg_parens_neg | _ => false end
+                        || (neg_parens_minus && starts_minus s)) s)
   | TArith op l r alias =>
       let c' := set_wa c false in
-      a <- render c' l ;; b <- render c' r ;;
-      let s := paren (left_needs_parens op (top_op l)) a ++ aop_text op ++ paren (right_needs_parens op (top_op r)) b in
+      a0 <- render (opc SArithL l c') l ;; b0 <- render (opc SArithR r c') r ;;
+      let a := opnd SArithL l a0 in
+      let b := opnd SArithR r b0 in
+      let rp := right_needs_parens op (top_op r)
+                || (sub_parens_minus && (match op with OSub => true | _ => false end) && starts_minus b) in
+      let s := paren (left_needs_parens op (top_op l)) a ++ aop_text op ++ paren rp b in
       Ok (if wa c then alias_sql c (q c) s alias else s)
   | TBasic cm l r alias =>
       let c' := set_wa c false in
-      a <- render c' l ;; b <- render c' r ;;
-      let s := a ++ cmp_text cm ++ b in
+      a0 <- render (opc SCmpL l c') l ;; b0 <- render (opc SCmpR r c') r ;;
+      let s := opnd SCmpL l a0 ++ cmp_text cm ++ opnd SCmpR r b0 in
       (* quote_char is a named parameter of BasicCriterion.get_sql: it does not reach format_alias_sql *)
       Ok (if wa c then alias_sql c None s alias else s)
   | TCplx bo l r alias =>
@@ -122,15 +145,15 @@ Fixpoint render (c : ctx) (t : term) {struct t} : res string :=
       b <- render (set_subc c (needs_brackets_x bo (top_bop r))) r ;;
       Ok (paren (subc c) (a ++ " " ++ bop_text_x bo ++ " " ++ b))
   | TIn t' cont negated alias =>
-      a <- render (set_subq c false) t' ;; b <- render (set_subq c true) cont ;;
-      Ok (alias_sql c (q c) (a ++ " " ++ (if negated then "NOT " else "") ++ "IN " ++ b) alias)
+      a <- render (opc SInTerm t' (set_subq c false)) t' ;; b <- render (set_subq c true) cont ;;
+      Ok (alias_sql c (q c) (opnd SInTerm t' a ++ " " ++ (if negated then "NOT " else "") ++ "IN " ++ b) alias)
   | TBetween t' lo hi alias =>
-      a <- render c t' ;; b <- render c lo ;; d <- render c hi ;;
-      Ok (alias_sql c (q c) (a ++ " BETWEEN " ++ b ++ " AND " ++ d) alias)
+      a <- render (opc SBetTerm t' c) t' ;; b <- render (opc SBetLo lo c) lo ;; d <- render (opc SBetHi hi c) hi ;;
+      Ok (alias_sql c (q c) (opnd SBetTerm t' a ++ " BETWEEN " ++ opnd SBetLo lo b ++ " AND " ++ opnd SBetHi hi d) alias)
   | TBitAnd t' v alias =>
       a <- render c t' ;; Ok (alias_sql c (q c) ("(" ++ a ++ " & " ++ v ++ ")") alias)
-  | TIsNull t' alias => a <- render (set_wa c false) t' ;; Ok (alias_sql c (q c) (a ++ " IS NULL") alias)
-  | TNotNull t' alias => a <- render (set_wa c false) t' ;; Ok (alias_sql c (q c) (a ++ " IS NOT NULL") alias)
+  | TIsNull t' alias => a <- render (opc SIsNull t' (set_wa c false)) t' ;; Ok (alias_sql c (q c) (opnd SIsNull t' a ++ " IS NULL") alias)
+  | TNotNull t' alias => a <- render (opc SNotNull t' (set_wa c false)) t' ;; Ok (alias_sql c (q c) (opnd SNotNull t' a ++ " IS NOT NULL") alias)
   | TNot t' alias => a <- render (set_subc c true) t' ;; Ok (alias_sql (set_subc c true) (q c) ("NOT " ++ a) alias)
   | TAll t' alias => a <- render c t' ;; Ok (alias_sql c (q c) (a ++ " ALL") alias)
   | TEmpty => Err "TypeError"
